@@ -43,7 +43,23 @@ def crash_run(vh, doc, work, name, blocks, stride, offset, wal=False, span=0, mo
     shutil.rmtree(os.path.join(work, name + ".w"), ignore_errors=True)
     if rc != 0:
         raise vlib.Infra("vh crash failed rc=%d: %s" % (rc, o[-2000:]))
+    for line in open(out):
+        e = json.loads(line)
+        if e["ev"] == "RefPartial":
+            raise RefPartial(e, out, doc)
+        if e["ev"] == "RefStalled":
+            STALLED.append((name, e["h"], e["why"]))
     return out
+
+
+STALLED = []      # fault-free runs that could not apply some block: only the blocks below it were evaluated
+
+
+class RefPartial(Exception):
+    """The fault-free run stalled at a block whose effects are partly in the database (a write outside the block's transaction)."""
+    def __init__(self, ev, path, doc):
+        Exception.__init__(self, "uninterrupted run stalled at block %s with tables %s already changed (recorded height %s)" % (ev["h"], ev["diffTables"], ev["synced"]))
+        self.ev, self.path, self.doc = ev, path, doc
 
 
 def validate(path, deviations=()):
@@ -69,6 +85,22 @@ def validate(path, deviations=()):
 
 
 def main():
+    try:
+        return main2()
+    except RefPartial as e:
+        # DiskIsPrefix without any fault: the database holds effects of block h while its recorded height is h-1
+        keep = os.path.join(vlib.replay_dir(PID), "ref-partial-seed%d.ndjson" % vlib.seed())
+        shutil.copyfile(e.path, keep) if os.path.exists(e.path) else None
+        json.dump(e.doc, open(keep + ".scenario.json", "w"))
+        sys.stdout.write("  %s\n" % e)
+        vlib.violation(PID, keep)
+        vlib.write_evidence(PID, "fault_enumeration", {"evaluations": 1, "distinct_nontrivial": 1,
+            "rule": "the uninterrupted reference run itself left part of a block in the database (DiskIsPrefix of Sync.tla violated without any fault)",
+            "samples": [e.ev]}, 0, violations=1, assumptions=[])
+        return 1
+
+
+def main2():
     t0 = time.time()
     tier, seed = vlib.tier(), vlib.seed()
     work = vlib.scratch("c02-")
@@ -212,6 +244,8 @@ def main():
         }, time.time() - t0, violations=viol,
             assumptions=["process kill only (no power loss / torn pages): SQLite's atomic commit is trusted",
                          "reference = uninterrupted run of the same chain"])
+        if STALLED and not viol:
+            raise vlib.Infra("the fault-free run stalled (%s); the blocks below were evaluated without finding a violation: no verdict" % (STALLED[:2],))
         return 1 if viol else 0
     finally:
         shutil.rmtree(work, ignore_errors=True)
